@@ -13,8 +13,13 @@ from `incoming_requests`, cancellations reaching running handlers, log records a
 above by kind; plus the multiset of response datagrams that reach the wire — are diffed with what
 the real stack did.
 
+A second level serves the same sites and schedules over CoAP-over-TCP: `Context.create_server_context(
+transports=["tcpserver"])` with the real `TCPServer` / `TcpConnection` on fake asyncio transports (`c09_tcp`),
+response sizes on every RFC 8323 length boundary; the model then composes the rendering side with C15's model
+of the TCP token interface and the diff covers every byte the server writes after its CSM.
+
 Oracle (independent; written from the property text, uses only the case and the datagrams on the
-fake socket): per (peer, token) the first transmissions carrying a response code are exactly the
+fake socket, resp. the messages the harness's own RFC 8323 reader finds in the connections' byte streams): per (peer, token) the first transmissions carrying a response code are exactly the
 expected ones (count, code, payload), 5.00 for failures has an empty payload, no datagram
 contains any of the secret markers put into exception texts / wrong return values, nothing
 escapes into the event loop or the transport.
@@ -30,9 +35,10 @@ RULE = ("case = site (none | 1..5 generated resources at paths of 0..3 segments,
         "random subset of GET/POST/PUT/DELETE/FETCH/PATCH/iPATCH) + 1..40 request datagrams (CON/NON, "
         "codes 1..7 and unassigned 8..31, known/unknown paths, tokens of 0..8 bytes, No-Response "
         "absent/0/2/8/16/24/26/127) from 4 peers at ticks that make handlers overlap; handler outcome = "
-        "returns a message (code absent / any response code, own No-Response) | raises one of the "
+        "returns a message (code absent / any response code / a code that is no response code: EMPTY, request, "
+        "class 1/6/7; own No-Response; the same Message object as last time) | raises one of the "
         "RenderableError classes of error.py (with and without diagnostic) or a harness subclass | "
-        "raises one of 18 other exceptions with a secret text | returns None/str/int/bytes/dict/list/"
+        "raises one of 20 other exceptions with a secret text (two of them outside the Exception hierarchy) | returns None/str/int/bytes/dict/list/"
         "tuple/float/object/type (also from a resource with its own render() and no blockwise assembly, "
         "where the value reaches the pipe unchecked) | raises a renderable error whose to_message raises / "
         "returns None / returns a str or tuple | "
@@ -41,14 +47,26 @@ RULE = ("case = site (none | 1..5 generated resources at paths of 0..3 segments,
         "anyway; peers ACK separate responses at once, after one retransmission, or RST them. "
         "Boundary tables enumerated in full: methods x code given/absent x CON/NON; every renderable "
         "class; every exception / wrong-return / failing-renderer kind; No-Response values x response "
-        "classes; delays around the empty ACK; override reactions. Non-trivial: at least one response "
-        "on the wire and one non-2.xx outcome or two requests in flight at once.")
+        "classes; delays around the empty ACK; override reactions; codes outside the response classes (returned and "
+        "rendered); one pre-built response object handed out to CON, NON and slow requests in turn. TCP level: the "
+        "same tables with every peer a CoAP-over-TCP connection (CSM with 1 MiB / default message size), plus "
+        "response bodies (options + marker + payload) of 0,2,3,11..15,267..271,65803..65807 bytes x token lengths "
+        "0..8 x (returned payload quick/slow, diagnostic of a library / own renderable error, ETag + payload) next to "
+        "failing handlers, and random cases with sizes drawn around those boundaries. Non-trivial: at least one "
+        "response on the wire and one non-2.xx outcome or two requests in flight at once.")
 TRUSTED = ["virtual-clock event loop and fake-socket UDP stack of the harness (vloop.py, netsim.py)",
+           "fake asyncio transports and the harness's own RFC 8323 framing code (c09_tcp.py); loop.create_server "
+           "replaced by a function handing the protocol factory to the harness",
            "harness-side instrumentation of instances (recording dict for incoming_requests, wrapper on "
            "the TokenManager's token_interface.send_message, logging handler, task factory)"]
 ASSUMPTIONS = [
-    "handler exceptions are Exception subclasses or CancelledError; KeyboardInterrupt/SystemExit stop the process",
-    "requests carry no Block1/Block2/Observe options and responses fit one message (C06/C08 cover those)",
+    "KeyboardInterrupt / SystemExit / GeneratorExit raised by a handler are not exceptions of the request: asyncio "
+    "ends the loop (the task) with them; every other exception class, inside or outside the Exception hierarchy, is generated",
+    "requests carry no Block1/Block2/Observe options and responses fit one message (C06/C08 cover those); over TCP "
+    "the limit is what the peer's CSM allows (aiocoap's maximum_payload_size, read from the connection)",
+    "resources answer through render / render_<method>; a resource implementing render_to_pipe itself is the "
+    "responding side of the pipe protocol (returning without an event is how the library's own OSCORE wrapper stays silent)",
+    "a response object handed out again is not in use by the message layer any more (its CON exchange has ended)",
     "a RenderableError's repr() and to_message() are the only application code run while converting it "
     "(either failing, or to_message returning anything but a message with a response code, is a failing renderer)",
     "peers acknowledge separate CON responses (otherwise the message layer gives up on the peer, C03)",
